@@ -3,8 +3,13 @@
 //!     ver <hex of the block bytes> <query> [args] [tree=...]      (tree= is for the model side only)
 //!     verat <align16> <hex> <query> [args]
 //!
-//! queries: events | events_skip <n> | fixed | translation | value <LLLLCCCC> <key utf-16 hex> | strings <LLLLCCCC>
-//!        | file_info | source | langparse
+//! queries: events | events_skip <n> | events_skip2 <fmask> <tmask> | fixed | translation
+//!        | value <LLLLCCCC> <key utf-16 hex> | strings <LLLLCCCC> | file_info | source | langparse
+//!
+//! `events_skip2 <fmask> <tmask>`: the recording visitor DECLINES (returns `false` from) the i-th
+//! `file_info` callback iff bit i of `fmask` is set and the j-th `string_table` callback iff bit j of
+//! `tmask` is set (i, j count the callbacks of that kind from 0, declined ones included; bits >= 64 are
+//! not set).  A declined callback is recorded, `visit` must not descend into it.
 use crate::util::*;
 use pelite::image::VS_FIXEDFILEINFO;
 use pelite::resources::version_info::{Language, VersionInfo, Visit};
@@ -33,7 +38,8 @@ fn parse_lang(s: &str) -> Language {
 }
 
 /// records every callback of `Visit`
-struct Recorder<'g> { g: &'g Guarded, out: Vec<String>, skip: usize }
+struct Recorder<'g> { g: &'g Guarded, out: Vec<String>, skip: usize, fmask: u64, tmask: u64, nf: usize, nt: usize }
+fn mask_bit(m: u64, i: usize) -> bool { i < 64 && (m >> i) & 1 == 1 }
 impl<'a, 'g> Visit<'a> for Recorder<'g> {
 	fn version_info(&mut self, key: &'a [u16], fixed: Option<&'a VS_FIXEDFILEINFO>) -> bool {
 		let f = match fixed { Some(f) => self.g.rf(f as *const _ as *const u8, 52), None => "none".to_string() };
@@ -42,8 +48,20 @@ impl<'a, 'g> Visit<'a> for Recorder<'g> {
 		if self.skip > 0 { self.skip -= 1; return false; }
 		true
 	}
-	fn file_info(&mut self, key: &'a [u16]) -> bool { self.out.push(format!("F({})", sl(self.g, key))); true }
-	fn string_table(&mut self, lang: &'a [u16]) -> bool { self.out.push(format!("T({})", sl(self.g, lang))); true }
+	fn file_info(&mut self, key: &'a [u16]) -> bool {
+		self.out.push(format!("F({})", sl(self.g, key)));
+		// a user visitor may decline a block: `visit` then goes on to the next one
+		let decline = mask_bit(self.fmask, self.nf);
+		self.nf += 1;
+		!decline
+	}
+	fn string_table(&mut self, lang: &'a [u16]) -> bool {
+		self.out.push(format!("T({})", sl(self.g, lang)));
+		// a user visitor may decline a string table: `visit` then goes on to the next one
+		let decline = mask_bit(self.tmask, self.nt);
+		self.nt += 1;
+		!decline
+	}
 	fn string(&mut self, key: &'a [u16], value: &'a [u16]) { self.out.push(format!("S({},{})", sl(self.g, key), sl(self.g, value))); }
 	fn var(&mut self, key: &'a [u16], value: &'a [u16]) { self.out.push(format!("R({},{})", sl(self.g, key), sl(self.g, value))); }
 	fn enter_scope(&mut self, depth: usize) { self.out.push(format!("{{{}", depth)); }
@@ -64,12 +82,17 @@ fn run(align16: usize, rest: &str) -> String {
 	let vi = match VersionInfo::try_from(g.bytes()) { Ok(v) => v, Err(e) => return format!("err {}", errname(e)) };
 	match (a[1], a.len()) {
 		("events", 2) => {
-			let mut r = Recorder { g: &g, out: Vec::new(), skip: 0 };
+			let mut r = Recorder { g: &g, out: Vec::new(), skip: 0, fmask: 0, tmask: 0, nf: 0, nt: 0 };
 			vi.visit(&mut r);
 			format!("ok {}", r.out.join(";"))
 		},
 		("events_skip", 3) => {
-			let mut r = Recorder { g: &g, out: Vec::new(), skip: num(a[2]) as usize };
+			let mut r = Recorder { g: &g, out: Vec::new(), skip: num(a[2]) as usize, fmask: 0, tmask: 0, nf: 0, nt: 0 };
+			vi.visit(&mut r);
+			format!("ok {}", r.out.join(";"))
+		},
+		("events_skip2", 4) => {
+			let mut r = Recorder { g: &g, out: Vec::new(), skip: 0, fmask: num(a[2]) as u64, tmask: num(a[3]) as u64, nf: 0, nt: 0 };
 			vi.visit(&mut r);
 			format!("ok {}", r.out.join(";"))
 		},
